@@ -249,13 +249,14 @@ LEVEL_TEXT = {
 for _p, _t in LEVEL_TEXT.items():
     if _p in PROPS: PROPS[_p]["level_text"] = _t
 
-PCTOR = [U(["contracts.problem_spaces"], f"{t}.__init__", timeout_ms=20000) for t in (DM, MJ, HX, FO)]
-_extend("C14", PCTOR); _extend("C15", PCTOR); _extend("C20", PCTOR); _extend("C16", PCTOR)
+HXT = [U(["contracts.hendrix_tables"], f"{HX}.{m}") for m in ("_calculate_pu", "_calculate_pz", "_setup_after_space_construction")]
+PCTOR = [U(["contracts.problem_spaces"], f"{t}.__init__", timeout_ms=20000, **({"pop": [f"{HX}._setup_after_space_construction"]} if t == HX else {})) for t in (DM, MJ, HX, FO)]
+_extend("C14", PCTOR); _extend("C15", PCTOR); _extend("C20", PCTOR); _extend("C16", PCTOR + HXT)
 
 # every property is quantified over problems / instances / call histories: none may depend on hidden module-level state
 GLOBALS = dict(script="contracts/global_state.py", id="global_state", modules=[], target="global_state")
 for _p in list(PROPS): PROPS[_p]["units"] = PROPS[_p]["units"] + [GLOBALS]
-_extend("C13", [U(PRB, f"{HX}.random_event_probability", timeout_ms=30000)] + [U(PRB, f"{HX}.{m}") for m in ("_get_probs_ia_lt_stock_a_ib_lt_stock_b", "_get_probs_ia_eq_stock_a_ib_lt_stock_b", "_get_probs_ia_lt_stock_a_ib_eq_stock_b", "_get_probs_ia_eq_stock_a_ib_eq_stock_b")])
+_extend("C13", HXT + [PCTOR[2]] + [U(PRB, f"{HX}.random_event_probability", timeout_ms=30000)] + [U(PRB, f"{HX}.{m}") for m in ("_get_probs_ia_lt_stock_a_ib_lt_stock_b", "_get_probs_ia_eq_stock_a_ib_lt_stock_b", "_get_probs_ia_lt_stock_a_ib_eq_stock_b", "_get_probs_ia_eq_stock_a_ib_eq_stock_b")])
 
 HOOK_COMMITS = []
 NOT_APPLICABLE = {
